@@ -40,7 +40,8 @@ type c22Case struct {
 	Second bool `json:"second_connect_of_the_same_client,omitempty"`
 }
 
-var c22Variants = []string{"valid", "bitflip", "empty", "null", "other-key", "other-data", "truncated", "extended", "garbage-cert", "ecdsa-cert", "empty-cert", "other-cert"}
+var c22Variants = []string{"valid", "bitflip", "empty", "null", "other-key", "other-data", "truncated", "extended", "garbage-cert", "ecdsa-cert", "empty-cert", "other-cert",
+	"bitflip-without-algorithm", "other-key-without-algorithm", "other-key-with-another-algorithm", "no-signature-field"}
 
 func ecdsaCert() []byte {
 	k, _ := ecdsa.GenerateKey(elliptic.P256(), rand.Reader)
@@ -121,7 +122,7 @@ func c22One(c *fw.Ctx, cs c22Case) {
 			return valid
 		}
 		switch cs.Variant {
-		case "bitflip":
+		case "bitflip", "bitflip-without-algorithm":
 			b := append([]byte{}, valid...)
 			b[len(b)/2] ^= 0x10
 			return b
@@ -129,7 +130,7 @@ func c22One(c *fw.Ctx, cs c22Case) {
 			return []byte{}
 		case "null":
 			return nil
-		case "other-key":
+		case "other-key", "other-key-without-algorithm", "other-key-with-another-algorithm":
 			s, _ := p.AsymSign(other.Key, append(append([]byte{}, clientCert...), clientNonce...))
 			return s
 		case "other-data":
@@ -141,6 +142,22 @@ func c22One(c *fw.Ctx, cs c22Case) {
 			return append(append([]byte{}, valid...), 0)
 		}
 		return valid
+	}
+	// the algorithm field of the signature is under the server's control as well
+	// (for the second-connect cases it applies to both CreateSession answers; the first stays valid otherwise)
+	if !cs.Second {
+		empty, otherAlg := "", "http://www.w3.org/2000/09/xmldsig#rsa-sha1"
+		if p.AsymSigURI == otherAlg {
+			otherAlg = "http://www.w3.org/2001/04/xmldsig-more#rsa-sha256"
+		}
+		switch cs.Variant {
+		case "bitflip-without-algorithm", "other-key-without-algorithm":
+			srv.SessionSigAlg = &empty
+		case "other-key-with-another-algorithm":
+			srv.SessionSigAlg = &otherAlg
+		case "no-signature-field":
+			srv.SessionSigNil = true
+		}
 	}
 	switch cs.Variant {
 	case "garbage-cert":
@@ -253,7 +270,7 @@ func init() {
 	fw.Register("C22", fw.Spec{
 		Plan: func(tier string) fw.Plan {
 			p := fw.Plan{Batches: 16, TimeoutS: 600, MinNontrivial: 40, Level: "exploration",
-				Rule:        "gopcua client (own child process per connect) against the scripted refpeer server over real secured channels: 5 policies x {Sign, SignAndEncrypt} x server-signature variants {valid, bit-flipped, empty, null, made with another key, made over other data, truncated, extended, garbage / ECDSA / empty / foreign server certificate in the response}; plus the same variants answered to the second CreateSession of a client object that connected successfully before and was closed; oracle: Connect succeeds iff the variant is 'valid', no ActivateSession is sent without proof, state is not Connected after an error, the child does not die; distinct = (policy, mode, variant, key size)",
+				Rule:        "gopcua client (own child process per connect) against the scripted refpeer server over real secured channels: 5 policies x {Sign, SignAndEncrypt} x server-signature variants {valid, bit-flipped, empty, null, made with another key, made over other data, truncated, extended, garbage / ECDSA / empty / foreign server certificate in the response, bad signatures with an empty or another algorithm URI, no signature field at all}; plus the same variants answered to the second CreateSession of a client object that connected successfully before and was closed; oracle: Connect succeeds iff the variant is 'valid', no ActivateSession is sent without proof, state is not Connected after an error, the child does not die; distinct = (policy, mode, variant, key size)",
 				Assumptions: []string{"the server certificate configured at the client is the scripted server's"}}
 			if tier == "thorough" {
 				p.TimeoutS, p.MinNontrivial = 3000, 200
